@@ -224,3 +224,93 @@ def run_benchgrad(c):
                         shape_ok=bool(gr.shape == x.shape),
                         err=float(np.max(np.abs(gr - num) / (1 + np.abs(num)))) if gr.shape == x.shape else None))
     return dict(points=out)
+
+
+class _RayFunction:
+    """f(x) = phi(alpha), alpha = (x - x0).d/|d|^2 ; phi = cubic Hermite through given nodes, or a named shape."""
+
+    def __init__(self, x0, d, spec):
+        self.x0 = np.array(x0, float)
+        self.d = np.array(d, float)
+        self.dd = float(self.d.dot(self.d))
+        self.spec = spec
+        self.log = []
+        if spec["type"] == "hermite":
+            nodes = sorted((float(a), float(f), float(g)) for a, f, g in spec["nodes"])
+            ded = []
+            for nd in nodes:
+                if not ded or abs(nd[0] - ded[-1][0]) > 1e-14:
+                    ded.append(nd)
+            self.nodes = ded
+
+    def phi(self, a):
+        s = self.spec
+        if s["type"] == "hermite":
+            N = self.nodes
+            if a <= N[0][0]:
+                return N[0][1] + N[0][2] * (a - N[0][0]), N[0][2]
+            if a >= N[-1][0]:
+                return N[-1][1] + N[-1][2] * (a - N[-1][0]), N[-1][2]
+            for (a0, f0, g0), (a1, f1, g1) in zip(N, N[1:]):
+                if a0 <= a <= a1:
+                    h = a1 - a0
+                    t = (a - a0) / h
+                    h00, h10, h01, h11 = 2 * t ** 3 - 3 * t ** 2 + 1, t ** 3 - 2 * t ** 2 + t, -2 * t ** 3 + 3 * t ** 2, t ** 3 - t ** 2
+                    d00, d10, d01, d11 = 6 * t ** 2 - 6 * t, 3 * t ** 2 - 4 * t + 1, -6 * t ** 2 + 6 * t, 3 * t ** 2 - 2 * t
+                    return (h00 * f0 + h10 * h * g0 + h01 * f1 + h11 * h * g1,
+                            (d00 * f0 + d10 * h * g0 + d01 * f1 + d11 * h * g1) / h)
+        if s["type"] == "steep_quadratic":      # -a + c a^2
+            c = s.get("c", 10.0)
+            return s.get("f0", 0.0) + s["slope"] * a + c * abs(s["slope"]) * a * a, s["slope"] + 2 * c * abs(s["slope"]) * a
+        if s["type"] == "oscillating":
+            w = s.get("w", 25.0)
+            return s.get("f0", 0.0) + s["slope"] * np.sin(w * a) / w + 0.3 * abs(s["slope"]) * (1 - np.cos(3 * w * a)) / w, s["slope"] * np.cos(w * a) + 0.9 * abs(s["slope"]) * np.sin(3 * w * a)
+        if s["type"] == "bump":                 # decreasing slope at 0, then rises above f0 everywhere tried
+            return s.get("f0", 0.0) + s["slope"] * a * np.exp(-40 * a) + abs(s["slope"]) * a * a, s["slope"] * (1 - 40 * a) * np.exp(-40 * a) + 2 * abs(s["slope"]) * a
+        raise ValueError(s["type"])
+
+    def alpha(self, x):
+        return float((np.asarray(x, float) - self.x0).dot(self.d) / self.dd)
+
+    def fun(self, x):
+        a = self.alpha(x)
+        self.log.append(np.array(x, float).tolist())
+        return float(self.phi(a)[0])
+
+    def grad(self, x):
+        a = self.alpha(x)
+        return self.phi(a)[1] * self.d / self.dd
+
+
+@register("linesearch")
+def run_linesearch(c):
+    from lbfgsb.linesearch import line_search
+    from lbfgsb.scalar_function import prepare_scalar_function
+    x0, d, l, u = (np.array(c[k], dtype=float) for k in ("x0", "d", "l", "u"))
+    out = []
+    for spec in c["functions"]:
+        rf = _RayFunction(x0, d, spec)
+        sf = prepare_scalar_function(rf.fun, x0, jac=rf.grad, bounds=(l, u))
+        f0 = sf.fun(x0)
+        g0 = sf.grad(x0)
+        n0 = sf.nfev
+        rf.log = []
+        with np.errstate(all="ignore"):
+            try:
+                step = line_search(x0.copy(), f0, g0, d, l, u, c["iter"], 1e8, bool(c["is_boxed"]), sf,
+                                   c.get("ftol", 1e-3), c.get("gtol", 0.9), 0.1, c["T"], -1, None)
+                exc = None
+            except Exception as e:  # noqa
+                step, exc = None, "%s: %s" % (type(e).__name__, e)
+        nev = sf.nfev - n0
+        pts = [p for p in rf.log]
+        in_box = all(bool(np.all(np.array(p) >= l) and np.all(np.array(p) <= u)) for p in pts)
+        r = dict(spec=spec, step=None if step is None else float(step), evaluations=nev, in_box=in_box, exception=exc,
+                 f0=float(f0), slope=float(g0.dot(d)))
+        if step is not None:
+            p = x0 + step * d
+            r["f_step"] = float(rf.phi(rf.alpha(p))[0])
+            r["downhill"] = bool(r["f_step"] < f0)
+            r["feasible"] = bool(step > 0 and np.all(p >= l - 0 * p) and np.all(p <= u))
+        out.append(r)
+    return dict(runs=out)
